@@ -1212,12 +1212,18 @@ def run_C16(ctx):
     rng = ctx.rng
     n = ctx.budget(160, 6000) * ctx.boost
     specs = []
-    for _ in range(n):
-        spec = gen.gen_spec(rng, random_units=rng.random() < 0.7, sl_bias=0.2)
+    n_rest = ctx.budget(15, 300)
+    for it in range(n):
+        spec = gen.gen_spec(rng, random_units=rng.random() < 0.7, sl_bias=0.2, currents=True if it < n_rest else None)
         dt = 2.0 ** -rng.randint(3, 6)
         total = rng.randint(6, 16)
         if spec['load']['coef'][4] != 0:
             total = rng.randint(4, 6)
+        if it < n_rest:
+            # a drive at rest with the supply off and no load: every speed, acceleration and the current read exactly zero
+            spec['load']['coef'] = [0.0, 0.0, 0.0, 0.0, 0.0]
+            spec['motor']['pwm0'] = 0.0
+            spec['init']['speed'] = [0.0, spec['init']['speed'][1]]
         op, _, _ = gen.run_op(rng, dt_si=dt, steps=(total, total), unit=rng.choice(['sec', 'ms']))
         spec['ops'] = [op]
         # learn the reachable range of the sensed quantity from the unstopped run
@@ -1226,7 +1232,7 @@ def run_C16(ctx):
             continue
         st = random_stop(rng, spec)
         series, _ = sensor_series(spec, tr0, st)
-        where = rng.choice(['inside', 'inside', 'inside', 'before', 'beyond', 'exact', 'exact', 'exact'])
+        where = rng.choice(['inside', 'inside', 'inside', 'before', 'beyond', 'exact', 'exact', 'exact']) if it >= n_rest else 'exact'
         vals = sorted(set(series[1:])) or [0.0]
         if where == 'exact' and len(series) > 2:
             # threshold exactly equal to a reading, in the reading's own unit: the comparison is exact, so
